@@ -494,7 +494,11 @@ package client
 // from other goroutines: a message object that is sent twice (a buffer reused across iterations)
 // has its payload overwritten by the next message before the earlier one was routed.
 //@ func receiveMessages
-//@   serves C16
+//@   serves C16 C15
+// each message is decoded from the connection itself: a decoder consumes exactly its own bytes only
+// if nothing in between reads ahead (a buffered reader that is dropped per message loses what it
+// pulled past the end of the message)
+//@   assert decodes_from_the_connection_itself at call Message.Deserialize : [C15 C16] ival(arg1) == ival(conn)
 //@   opt nomonitor = 1
 //@   opt partial = 1
 //@   opt trackhandover = 1
@@ -521,3 +525,16 @@ package client
 //@   ensures insync_to_every_handler: [C17] typeis(msg.Payload, *InSync) ==> ncalls(HandleInSync) == len(c.handlers)
 //@   assert hands_over_what_was_queued at call HandleTx : [C17] arg2 == as(msg.Payload, *Tx)
 //@   assert hands_over_the_update_that_was_queued at call HandleTxUpdate : [C17] arg2 == as(msg.Payload, *TxUpdate)
+
+// C18: the keep-alive is an ordinary request: it goes through sendMessage (which queues it behind the
+// handshake gate of the connection), never straight onto the connection.
+//@ func (*RemoteClient).ping
+//@   serves C18
+//@   opt nomonitor = 1
+//@   opt partial = 1
+//@   opt track = sendDirect sendMessage
+//@   opt abstract = sendMessage
+//@   requires c != nil
+//@   loop 0 invariant ncalls(sendDirect) == 0 && ncalls(sendMessage) >= 0
+//@   assert keepalive_is_gated at call sendMessage : [C18] typeis(arg2.Payload, *Ping) && ncalls(sendDirect) == 0
+//@   ensures never_direct: [C18] ncalls(sendDirect) == 0
